@@ -427,24 +427,15 @@ def r6_seeding(ctx, rule):
     # PcfgQueue.__init__ pushes all on the new-session path
     iq = PQ + '__init__'
     ifn = ctx.fn(iq)
-    pushed = False
-    ifn_stores = stores_in(ifn)
-    for n in walk_local(ifn):
-        it_ = expand(ifn, n.iter, ifn_stores) if isinstance(n, ast.For) else None
-        if isinstance(n, ast.For) and isinstance(it_, ast.Call) and call_name(it_) == 'self.pcfg.initalize_base_structures' and not pushed:
-            tv = n.target.id if isinstance(n.target, ast.Name) else None
-            for s in n.body:
-                if isinstance(s, ast.Expr) and isinstance(s.value, ast.Call):
-                    c = s.value
-                    if call_name(c) == 'heapq.heappush' and len(c.args) == 2 and U(c.args[1]) == 'QueueItem(%s)' % tv:
-                        pushed = True
-                    if call_name(c) == 'self.insert_queue' and c.args and U(c.args[0]) == tv:
-                        pushed = True
-            if pushed and any(isinstance(s, (ast.Break, ast.Return, ast.Continue, ast.If)) for s in walk_stmts(n.body)):
-                pushed = False
-    if not pushed:
+    from .common import queue_init_modes
+    modes = queue_init_modes(ctx, iq)
+    pushed = any(x in ('push', 'self.insert_queue') for x in modes['new'])
+    if not pushed and modes['unknown']:
         ok = False
-        ctx.bad(rule, iq, 'new-session path does not push every start node', 'all base structures must be seeded', None, ifn)
+        ctx.unk(rule, iq, 'seeding of a new session depends on conditions that are not understood: %s' % modes['unknown'][:3])
+    elif not pushed:
+        ok = False
+        ctx.bad(rule, iq, 'new-session path does not push every start node', 'all base structures must be seeded', {'modes': modes}, ifn)
     if ok:
         ctx.ok(rule, qual, 'one start node per base structure with index 0 everywhere; all pushed on a new session')
 
